@@ -708,6 +708,7 @@ namespace awkward {
     else if (dynamic_cast<SliceAt*>(head.get())  ||
              dynamic_cast<SliceRange*>(head.get())  ||
              dynamic_cast<SliceArray64*>(head.get())  ||
+             dynamic_cast<SliceMissing64*>(head.get())  ||
              dynamic_cast<SliceJagged64*>(head.get())) {
       int64_t numnull;
       std::pair<Index64, Index64> pair = nextcarry_outindex(numnull);
@@ -746,10 +747,6 @@ namespace awkward {
     else if (SliceFields* fields =
              dynamic_cast<SliceFields*>(head.get())) {
       return Content::getitem_next(*fields, tail, advanced);
-    }
-    else if (SliceMissing64* missing =
-             dynamic_cast<SliceMissing64*>(head.get())) {
-      return Content::getitem_next(*missing, tail, advanced);
     }
     else if (SliceVarNewAxis* varnewaxis =
              dynamic_cast<SliceVarNewAxis*>(head.get())) {
